@@ -81,7 +81,7 @@ def e2e_expected(N, K, S):
         "store-load.pointer-roundtrip": 1, "go.arg-value-at-go": 1, "go.args-in-order": 123, "go.args-before-next-stmt": 4,
         "go.func-value-at-go": 1, "go.value-receiver-at-go": 1, "go.pointer-shared": 6, "go.iface-receiver-at-go": 7,
         "go.closure-shares-variable": 11, "go.not-exactly-once": 0, "go.nested-sum": 6 * N, "value.inconsistent-load": 0,
-        "value.last": K, "value.swap-old": K, "value.first-store.rounds": S, "value.first-store.incomplete": 0, "typed.int64": 2 * nk, "typed.uint32": nk, "typed.bool": 1, "end": 1,
+        "value.last": K, "value.swap-old": K, "value.first-store.rounds": min(5 * S, 1000000), "value.first-store.incomplete": 0, "typed.int64": 2 * nk, "typed.uint32": nk, "typed.bool": 1, "end": 1,
     }
 
 
@@ -94,7 +94,7 @@ def e2e_pipeline(ctx, N, K, S, ir_ready, res):
         res["t"]["build_llgo"] = round(time.time() - t0, 1)
         extra, ird = setup_ir_shims(ctx)
         d = os.path.join(ctx.scratch, "stress")
-        main = open(os.path.join(H, "e2e_main.go.txt")).read().replace("@N@", str(N)).replace("@K@", str(K)).replace("@S@", str(S))
+        main = open(os.path.join(H, "e2e_main.go.txt")).read().replace("@N@", str(N)).replace("@K@", str(K)).replace("@S@", str(S)).replace("@R@", str(min(5 * S, 1000000)))
         write_module(d, {"main.go": main, "atom/atom.go": atomgen.wrapper_source()})
         for opt in ("-O0", "-O2"):
             t0 = time.time()
@@ -121,6 +121,10 @@ def e2e_pipeline(ctx, N, K, S, ir_ready, res):
                 res["ir_O2"] = open(irs[0]).read() if irs else None
             t0 = time.time()
             so, se, rc = run_prog(out, timeout=240)
+            if rc == "timeout":
+                # the program synchronises by spinning; on a heavily oversubscribed machine a run can starve: one more try
+                res["t"]["retry" + opt] = True
+                so, se, rc = run_prog(out, timeout=480)
             res["t"]["run" + opt] = round(time.time() - t0, 1)
             res["runs"][opt] = {"rc": rc, "stderr": se, "stdout": so}
     except HarnessBuildError as e:
